@@ -91,12 +91,15 @@ def Cond.prog (F : Facts) (v : View) : Cond → (Option Bool → Prog) → Prog
         else
           .walk (fun b => decide (b.base + b.size ≥ off + len)) fun seen =>
             let started := seen.any fun b => decide (off ≥ b.base ∧ off < b.base + b.size)
-            let total := match first.head? with | some b => (b.data.map fun key => F.total (inputOf key)).getD 0 | none => 0
             let reach := match seen.getLast? with | some b => b.base + b.size | none => 0
             let holes := seen.any fun b => b.data.isNone && decide (b.base + b.size > off ∧ b.base < off + len)
-            let input := match first.head? with | some b => (b.data.map inputOf).getD 0 | none => 0
             if !started then k none
-            else k (some (decide (reach ≥ min (off + len) total) && !holes && (F.hashOk input).contains (off, len)))
+            else
+              match seen.findSome? (·.data) with
+              | none => k (some false)
+              | some key =>
+                let input := inputOf key
+                k (some (decide (reach ≥ min (off + len) (F.total input)) && !holes && (F.hashOk input).contains (off, len)))
   | .ref r, k => k (some (decide (r ∈ v.ruleFlags)))
   | .burn, k => .check (k (some true))
   | .not a, k => a.prog F v fun x => k (undefOr (!·) x)
